@@ -76,6 +76,12 @@ CLAIMS = {
               "honoured, and the call is a pure read+edit plan followed by one WriteCas conditional on the CAS read (so by C02 no concurrent "
               "update is lost). Go's decode/encode of the document (map[string]any, float64) is outside the model: see known finding F18.",
               note="Partial: the JSON round trip through Go values is not modelled."),
+ "C15": claim("Proved: the delivered mark (what a stop persists as checkpoint) only ever moves to the CAS of a delivered event, so the checkpoint "
+              "never exceeds the highest CAS delivered; a resumed run starts at checkpoint+1 and its backfill contains every stored row "
+              "newer than the checkpoint and nothing else. The coverage clause is proved for in-order delivery (C15_cover_partial) and "
+              "proved FALSE in general (C15_cover_full_false): with C08's overtaking schedule a write below the checkpoint is skipped - "
+              "replayed on the real code through post.before and recorded as a known finding.",
+              note="Partial: coverage fails under concurrent writers (F16)."),
  "C17": claim("Proved: every single-row entry point either changes no row or raises the addressed key's revSeqNo by exactly one (1 for a key "
               "without a row), live and backfill events and the virtual xattrs report the stored number. Compound calls via correspondence + monitor."),
 }
